@@ -1,8 +1,9 @@
 /-
   Every `DUnion` anywhere in a result of `optimize_type` is flat (has no `DUnion` member) — for every input,
   with no hypothesis: all unions of the result are built by the `DUnion` constructor at the end of
-  `_optimize_union`, which flattens. This discharges the side condition `FlatTopF` of `optSoundP_partial`
-  (Proofs/RegistryGenOpt.lean) for field dicts cut out of generator output.
+  `_optimize_union`, which flattens. This gives the side condition `FlatTopF` of `optSoundP_partial`
+  (Proofs/RegistryGenOpt.lean) for field dicts cut out of generator output (the side condition is not needed any
+  more since `_optimize_union` splices nested unions: `optSoundPS`).
 -/
 import J2M.Proofs.RegistryGenOpt
 namespace J2M.Reg
